@@ -1,3 +1,205 @@
-/-! Property C07 — theorems (statements live here, helper lemmas in Faithful/Lib) -/
+import Faithful.Lib.Paging
+import Faithful.Generated.IntFns
+
+/-!
+# C07 — getSignaturesForAddress paging slices the newest-first history correctly
+
+The model (`Faithful/Lib/Paging.lean`) is the three nested loops of `GsfaReaderMultiepoch.iterBeforeUntil`
+(`recLoop` / `epochLoop` / `allEpochs` with their `continue` / `break epochLoop` exits), the slot-bounded
+`iterBeforeUntilSlot`, and the loop of `handleGetSignaturesForAddress` that turns the result map into the
+response array.  The driver `fdrv-C07` executes exactly these definitions on the op lines of the harness.
+
+A history `hs : Hist σ` lists the loaded epochs **in the order of `multi.epochs`** (the handler supplies them
+newest first); for each epoch the address is `notFound`, its index lookup `failed`, or `found` with the chain of
+linked-log records (newest record first, newest transaction first inside a record).  `flatten hs` is the
+complete history of the address, every entry tagged with its epoch.  The Go result map `epoch → []tx` is
+represented by the tagged sequence of appends; `group` recovers `map[e]`.
+
+Repaired behaviour is what the driver runs (`fixed = true`, `responseFixed`); the pinned tree's behaviour is
+modelled as well (`fixed = false`, `responsePinned order`) and shown to violate the property by witnesses.
+
+Signatures are *not* assumed distinct in `iterBeforeUntil_spec` (the code and the specification both act on
+the first occurrence); distinctness is a hypothesis only where positions are named (`spec_index…`).
+-/
 namespace C07
+open Paging
+
+variable {σ : Type} [DecidableEq σ]
+
+/-- tie: the translated Go `slottools.CalcEpochForSlot` is the model's `epochOf` -/
+theorem gen_calcEpochForSlot_eq_model (s : UInt64) :
+    (Generated.calcEpochForSlot s).toNat = epochOf s.toNat := by
+  unfold Generated.calcEpochForSlot epochOf
+  rw [UInt64.toNat_div]
+  rfl
+
+/-- **paging = slicing.**  For every history (any number of epochs, records and entries, address absent from any
+    subset of the epochs), every `limit` (≤ 0 included: empty), every `before` / `until` (drawn from the history
+    or not): the loops return the contiguous run of the flattened history that starts just after `before`
+    (or at the newest entry), ends with `until` inclusive (or at the oldest entry) and is cut to `limit`. -/
+theorem iterBeforeUntil_spec (hs : Hist σ) (limit : Int) (before untl : Option σ)
+    (hok : ∀ h ∈ hs, isFailed h.2 = false) :
+    iterBeforeUntil hs limit before untl
+      = .ok ((takeThrough untl (dropAfter before (flatten hs))).take limit.toNat) :=
+  iterBeforeUntil_eq_spec hs limit before untl hok
+
+example : iterBeforeUntil [(2, Lookup.found [[⟨10, 7⟩, ⟨11, 6⟩], [⟨12, 5⟩]]), (1, .notFound), (0, .found [[⟨13, 2⟩]])]
+    2 (some 10) (some 13) = .ok [(2, ⟨11, 6⟩), (2, ⟨12, 5⟩)] := by rfl
+
+/-- what the code does when `before` is given but is not in the history: it never starts collecting —
+    the answer is empty and the request succeeds -/
+theorem before_absent_empty (hs : Hist σ) (limit : Int) (b : σ) (untl : Option σ)
+    (hok : ∀ h ∈ hs, isFailed h.2 = false) (habs : ∀ x ∈ flatten hs, x.2.sig ≠ b) :
+    iterBeforeUntil hs limit (some b) untl = .ok [] := by
+  rw [iterBeforeUntil_spec hs limit (some b) untl hok, dropAfter_absent b _ habs, takeThrough_nil, List.take_nil]
+
+example : iterBeforeUntil [(2, Lookup.found [[⟨10, 7⟩, ⟨11, 6⟩]])] 5 (some 99) none = .ok [] := by rfl
+
+/-- `until` given but not in the history (after `before`): nothing is cut but `limit` -/
+theorem until_absent_no_cut (hs : Hist σ) (limit : Int) (before : Option σ) (u : σ)
+    (hok : ∀ h ∈ hs, isFailed h.2 = false) (habs : ∀ x ∈ flatten hs, x.2.sig ≠ u) :
+    iterBeforeUntil hs limit before (some u) = .ok ((dropAfter before (flatten hs)).take limit.toNat) := by
+  rw [iterBeforeUntil_spec hs limit before (some u) hok, takeThrough_absent]
+  intro x hx
+  exact habs x ((dropAfter_sublist before _).subset hx)
+
+example : iterBeforeUntil [(2, Lookup.found [[⟨10, 7⟩, ⟨11, 6⟩]])] 5 (some 10) (some 99) = .ok [(2, ⟨11, 6⟩)] := by
+  rfl
+
+/-- index form, signatures distinct: `before = history[i]`, `until = history[j]`, `i < j` → `history[i+1 .. j]`
+    cut to `limit` -/
+theorem spec_index (hs : Hist σ) (limit : Int) (i j : Nat) (hij : i < j) (hj : j < (flatten hs).length)
+    (hok : ∀ h ∈ hs, isFailed h.2 = false) (hd : (sigs (flatten hs)).Nodup) :
+    iterBeforeUntil hs limit (some ((flatten hs)[i]'(by omega)).2.sig) (some ((flatten hs)[j]).2.sig)
+      = .ok ((((flatten hs).drop (i + 1)).take (j - i)).take limit.toNat) := by
+  rw [iterBeforeUntil_eq_spec _ _ _ _ hok]
+  exact congrArg _ (specL_index (flatten hs) limit i j hij hj hd)
+
+/-- index form: an `until` that is not strictly older than `before` is never met -/
+theorem spec_index_until_not_after (hs : Hist σ) (limit : Int) (i j : Nat) (hji : j ≤ i) (hi : i < (flatten hs).length)
+    (hok : ∀ h ∈ hs, isFailed h.2 = false) (hd : (sigs (flatten hs)).Nodup) :
+    iterBeforeUntil hs limit (some ((flatten hs)[i]).2.sig) (some ((flatten hs)[j]'(by omega)).2.sig)
+      = .ok (((flatten hs).drop (i + 1)).take limit.toNat) := by
+  rw [iterBeforeUntil_eq_spec _ _ _ _ hok]
+  exact congrArg _ (specL_index_until_not_after (flatten hs) limit i j hji hi hd)
+
+example : (sigs (flatten [(2, Lookup.found [[(⟨10, 7⟩ : Tx Nat), ⟨11, 6⟩]]), (1, .found [[⟨12, 3⟩]])])).Nodup := by decide
+
+/-- the reader sees a record chain up to its first empty record; the writer never writes one, and then the
+    visible history is the whole chain -/
+theorem visible_is_flatten {α : Type} (recs : List (List α)) (h : ∀ r ∈ recs, r ≠ []) :
+    visible recs = recs.flatten := visible_eq_flatten recs h
+
+/-- **response order (repaired handler).**  When the loaded epochs are pairwise different, walking the result map
+    by the epoch numbers in the order the readers were queried lists the entries exactly in slice order. -/
+theorem response_order (hs : Hist σ) (limit : Int) (before untl : Option σ)
+    (hok : ∀ h ∈ hs, isFailed h.2 = false) (hn : (hs.map fun h => h.1).Nodup) :
+    handler hs limit before untl = .ok ((spec hs (normLimit limit) before untl).map fun x => x.2.sig) := by
+  unfold handler
+  rw [iterBeforeUntil_eq_spec _ _ _ _ hok]
+  simp only
+  rw [responseFixed_eq, blocked_regroup _ _ hn]
+  exact blocked_sublist _ _ _ (blocked_flatten hs hn) (specL_sublist _ _ _ _)
+
+example : handler [(2, Lookup.found [[⟨10, 7⟩]]), (1, .found [[⟨12, 3⟩, ⟨13, 2⟩]])] 0 none (some 12) = .ok [10, 12] := by
+  rfl
+
+/-- **pinned handler**: `for ei := range foundTransactions` visits the map keys in an unspecified order; for the
+    two-epoch history below one of the two orders lists the older epoch first -/
+theorem response_pinned_order_dependent :
+    ∃ (hs : Hist Nat) (limit : Int) (order : List Nat),
+      order.Perm (keys (spec hs limit none none)) ∧
+      responsePinned order (spec hs limit none none) ≠ (spec hs limit none none).map fun x => x.2.sig := by
+  refine ⟨[(2, .found [[⟨10, 7⟩]]), (1, .found [[⟨12, 3⟩]])], 1000, [1, 2], ?_, by decide⟩
+  have : keys (spec [(2, Lookup.found [[(⟨10, 7⟩ : Tx Nat)]]), (1, .found [[⟨12, 3⟩]])] 1000 none none) = [2, 1] := by
+    decide
+  rw [this]
+  exact List.Perm.swap 2 1 []
+
+omit [DecidableEq σ] in
+/-- with the keys taken in the order of the loaded epochs the pinned loop is the repaired one -/
+theorem response_pinned_right_order (hs : Hist σ) (out : Tagged σ) :
+    responsePinned (hs.map fun h => h.1) out = responseFixed (hs.map fun h => h.1) out := rfl
+
+omit [DecidableEq σ] in
+/-- **slot window (repaired `iterBeforeUntilSlot`)**: only transactions with `until ≤ slot < before` -/
+theorem slot_window (hs : Hist σ) (limit : Int) (before untl : Nat) (r : Tagged σ)
+    (h : iterBeforeUntilSlot true hs limit before untl = .ok r) :
+    ∀ x ∈ r, untl ≤ x.2.slot ∧ x.2.slot < before := by
+  unfold iterBeforeUntilSlot at h
+  split at h
+  · cases h; intro x hx; cases hx
+  · split at h
+    · cases h
+    · cases h
+      intro x hx
+      rcases allEpochsSlot_mem _ _ _ _ _ x hx with h | h
+      · cases h
+      · simpa [inWin] using h
+
+example : iterBeforeUntilSlot true [(1, Lookup.found [[(⟨10, 432009⟩ : Tx Nat), ⟨11, 432005⟩, ⟨12, 432001⟩]])] 100 432006 432002
+    = .ok [(1, ⟨11, 432005⟩)] := by rfl
+
+/-- **pinned tree**: a transaction above the requested range is returned -/
+theorem slot_window_pinned_fails :
+    ∃ (hs : Hist Nat) (limit : Int) (before untl : Nat) (r : Tagged Nat),
+      iterBeforeUntilSlot false hs limit before untl = .ok r ∧ ∃ x ∈ r, ¬ x.2.slot < before :=
+  ⟨[(1, .found [[⟨10, 432009⟩, ⟨11, 432005⟩]])], 100, 432006, 432002, [(1, ⟨10, 432009⟩), (1, ⟨11, 432005⟩)],
+    by rfl, (1, ⟨10, 432009⟩), by decide, by decide⟩
+
+omit [DecidableEq σ] in
+/-- **slot window, completeness**: on a history whose slots do not increase (newest first) and whose entries lie
+    in (or after) the epoch they are filed under, every in-window entry is returned, in history order, up to
+    `limit` -/
+theorem slot_complete (hs : Hist σ) (limit : Int) (before untl : Nat)
+    (hok : ∀ h ∈ hs, isFailed h.2 = false) (hd : Desc (flatten hs))
+    (hep : ∀ x ∈ flatten hs, x.1 * Generated.epochLen ≤ x.2.slot) :
+    iterBeforeUntilSlot true hs limit before untl
+      = .ok (((flatten hs).filter (inWin before untl)).take limit.toNat) := by
+  unfold iterBeforeUntilSlot
+  split
+  · rename_i h
+    rcases h with h | h
+    · have : limit.toNat = 0 := by omega
+      simp [this]
+    · have : (flatten hs).filter (inWin before untl) = [] := by
+        rw [List.filter_eq_nil_iff]
+        intro x _; simp [inWin]; omega
+      simp [this]
+  · have := allEpochsSlot_sim limit.toNat before untl hs (start none) [] rfl (by simpa using hd) hep hok
+    rw [finSlot_nil] at this
+    have hf : (allEpochsSlot true limit.toNat before untl hs (start none)).failed = false := this.2
+    simp only [hf]
+    rw [this.1]
+    simp [finSlot, start]
+
+example : Desc (flatten [(2, Lookup.found [[(⟨10, 864007⟩ : Tx Nat)]]), (1, .found [[⟨11, 432005⟩], [⟨12, 432005⟩]])]) := by
+  unfold Desc; decide
+
+/-- **epochs in which the address never appears are skipped**: removing such an epoch from the loaded set changes
+    neither variant's answer (in particular it does not turn it into an error) … -/
+theorem absent_epochs_skipped (hs1 hs2 : Hist σ) (e : Nat) (limit : Int) (before untl : Option σ)
+    (fixed : Bool) (sb su : Nat) :
+    iterBeforeUntil (hs1 ++ (e, .notFound) :: hs2) limit before untl = iterBeforeUntil (hs1 ++ hs2) limit before untl
+    ∧ iterBeforeUntilSlot fixed (hs1 ++ (e, .notFound) :: hs2) limit sb su
+        = iterBeforeUntilSlot fixed (hs1 ++ hs2) limit sb su := by
+  constructor
+  · unfold iterBeforeUntil; rw [allEpochs_skip]
+  · unfold iterBeforeUntilSlot; rw [allEpochsSlot_skip]
+
+/-- … and a request over epochs none of whose lookups failed with a real error always succeeds -/
+theorem absent_epochs_do_not_fail (hs : Hist σ) (limit : Int) (before untl : Option σ)
+    (hok : ∀ h ∈ hs, isFailed h.2 = false) : ∃ r, iterBeforeUntil hs limit before untl = .ok r :=
+  ⟨_, iterBeforeUntil_eq_spec hs limit before untl hok⟩
+
+example : iterBeforeUntil [(3, Lookup.notFound), (2, .found [[(⟨10, 7⟩ : Tx Nat)]]), (1, .notFound)] 5 none none
+    = .ok [(2, ⟨10, 7⟩)] := by rfl
+
+/-- a lookup error other than not-found does fail the request (the hypothesis `hok` above is not vacuous) -/
+theorem failed_lookup_fails (hs : Hist σ) (e : Nat) (limit : Int) (before untl : Option σ) (hl : 0 < limit) :
+    iterBeforeUntil ((e, .failed) :: hs) limit before untl = .error "error while getting initial offset" := by
+  unfold iterBeforeUntil
+  have : ¬ limit ≤ 0 := by omega
+  simp [this, allEpochs]
+
 end C07
